@@ -78,6 +78,7 @@ for _b in ('P5', 'P7'):
 for _l in (1, 2, 3, 4, 5, 255):
     CONFIGS['S%d' % _l] = cfg(N=2, HEAD=1, L=_l, CTX=0)
     CONFIGS['S3_%d' % _l] = cfg(N=3, HEAD=0, L=_l, CTX=0)
+    CONFIGS['SH3_%d' % _l] = cfg(N=3, HEAD=1, L=_l, CTX=0)
     CONFIGS['SM%d' % _l] = cfg(N=2, HEAD=0, MANUAL=1, L=_l, CTX=0)                       # stationary strategies on a manually activated machine (enter(), exit())
     CONFIGS['SP%d' % _l] = cfg(N=2, HEAD=0, PAYLOAD=4, L=_l, CTX=0)                      # ... and on a machine with payloads (immediateChangeWith)
 
@@ -113,9 +114,9 @@ SPECS = {
     quick=[S('P5', 2, mf('GUARD_CANCEL', 'GUARD_REQ', 'GUARD_REPORT', 'REPORT'), og('CORE', 'PLAN', 'REPORT')), S('I4', 2, mf('GUARD_CANCEL', 'GUARD_REPORT', 'INJ_DECIDE'), og('CORE', 'REPORT')), S('T1t', 3, M_G, O_T), S('T2t', 2, M_G | mf('PAYLOAD'), O_T | og('PAYLOAD', 'MANUAL')), S('N8', 3, M_G, og('CORE'), flags=['--ids=0,3,4,7']), S('N5', 2, M_G, og('CORE')), S('T1', 3, M_G, O_T), S('T2', 3, M_G | mf('PAYLOAD'), O_T | og('PAYLOAD', 'MANUAL', 'REPLAY', 'SERIAL')), S('T3', 3, M_G, O_T), S('T8', 3, M_G, og('CORE')), S('T1', 2, M_T, O_T | og('REPLAY')), S('I1', 2, M_G | mf('INJ_DECIDE'), og('CORE')), S('I2', 2, M_G | mf('INJ_DECIDE'), og('CORE')), S('T1', 2, M_GC, og('CORE')), S('T3', 3, M_GC, og('CORE'))],
     thorough=[S('T1', 3, M_GC, og('CORE'), W), S('T8', 3, M_GC, og('CORE'), W), S('T1', 4, M_G, O_T, W), S('T8', 4, M_G, og('CORE'), W), S('T2', 4, M_G | mf('PAYLOAD'), O_T | og('PAYLOAD', 'MANUAL', 'REPLAY', 'SERIAL'), W), S('T3', 4, M_G, O_T), S('T4', 3, M_G, og('CORE'), W), S('T1', 3, M_T, O_T | og('REPLAY'), W), S('T5', 3, M_G | mf('PAYLOAD'), O_T | og('PAYLOAD', 'MANUAL', 'REPLAY', 'SERIAL'), W), S('I1', 3, M_G | mf('INJ_DECIDE'), og('CORE'), W), S('I2', 3, M_G | mf('INJ_DECIDE'), og('CORE'), W)]),
  'C04': dict(
-    quick=[S('I2', 3, M_G | mf('INJ_DECIDE'), og('CORE')), S('I1', 2, M_G | mf('INJ_DECIDE'), og('CORE')), S('SM1', 0, M_G, og('CORE', 'MANUAL'), W, ['--strategies']), S('SM2', 0, M_G, og('CORE', 'MANUAL'), W, ['--strategies']), S('SM3', 0, M_G, og('CORE', 'MANUAL'), W, ['--strategies']), S('SP2', 0, M_G, og('CORE', 'PAYLOAD', 'IMM'), W, ['--strategies']), S('SP1', 0, M_G, og('CORE', 'PAYLOAD', 'IMM'), W, ['--strategies']), S('T2', 2, M_G | mf('PAYLOAD'), og('CORE', 'MANUAL', 'PAYLOAD')), S('S1', 0, M_G, og('CORE'), W, ['--strategies']), S('S2', 0, M_G, og('CORE'), W, ['--strategies']), S('S3', 0, M_G, og('CORE'), W, ['--strategies']), S('S5', 0, M_G, og('CORE'), W, ['--strategies']), S('S255', 0, M_G, og('CORE'), W, ['--strategies']),
+    quick=[S('S3_1', 0, M_G, og('CORE'), W, ['--strategies']), S('S3_2', 0, M_G, og('CORE'), W, ['--strategies']), S('S3_3', 0, M_G, og('CORE'), W, ['--strategies']), S('I2', 3, M_G | mf('INJ_DECIDE'), og('CORE')), S('I1', 2, M_G | mf('INJ_DECIDE'), og('CORE')), S('SM1', 0, M_G, og('CORE', 'MANUAL'), W, ['--strategies']), S('SM2', 0, M_G, og('CORE', 'MANUAL'), W, ['--strategies']), S('SM3', 0, M_G, og('CORE', 'MANUAL'), W, ['--strategies']), S('SP2', 0, M_G, og('CORE', 'PAYLOAD', 'IMM'), W, ['--strategies']), S('SP1', 0, M_G, og('CORE', 'PAYLOAD', 'IMM'), W, ['--strategies']), S('T2', 2, M_G | mf('PAYLOAD'), og('CORE', 'MANUAL', 'PAYLOAD')), S('S1', 0, M_G, og('CORE'), W, ['--strategies']), S('S2', 0, M_G, og('CORE'), W, ['--strategies']), S('S3', 0, M_G, og('CORE'), W, ['--strategies']), S('S5', 0, M_G, og('CORE'), W, ['--strategies']), S('S255', 0, M_G, og('CORE'), W, ['--strategies']),
            S('T1', 3, M_G, og('CORE')), S('T3', 3, M_T, og('CORE'))],
-    thorough=[S('S%d' % l, 0, M_G, og('CORE'), W, ['--strategies']) for l in (1, 2, 3, 4, 5, 255)] + [S('S3_%d' % l, 0, mf('GUARD_CANCEL', 'GUARD_REQ'), og('CORE'), W, ['--strategies'], share=3.0) for l in (1, 2, 3)] +
+    thorough=[S('S%d' % l, 0, M_G, og('CORE'), W, ['--strategies']) for l in (1, 2, 3, 4, 5, 255)] + [S('S3_%d' % l, 0, mf('GUARD_CANCEL', 'GUARD_REQ'), og('CORE'), W, ['--strategies'], share=3.0) for l in (1, 2, 3, 4, 5, 255)] + [S('SH3_%d' % l, 0, mf('GUARD_CANCEL', 'GUARD_REQ'), og('CORE'), W, ['--strategies'], share=4.0) for l in (1, 2, 3)] + [S('SM%d' % l, 0, M_G, og('CORE', 'MANUAL'), W, ['--strategies']) for l in (1, 2, 3, 4, 5, 255)] + [S('SP%d' % l, 0, M_G, og('CORE', 'PAYLOAD', 'IMM'), W, ['--strategies']) for l in (1, 2, 3, 255)] +
              [S('T1', 4, M_G, og('CORE'), W), S('T8', 4, M_G, og('CORE'), W), S('T2', 3, M_G, og('CORE', 'MANUAL'), W), S('T1', 3, M_T, O_T, W)]),
  'C05': dict(
     quick=[S('I5', 1, M_T, og('CORE', 'REACT', 'QUERY')), S('I6', 1, M_T, og('CORE', 'REACT', 'QUERY')), S('I8', 1, M_T, og('CORE', 'REACT', 'QUERY')), S('I1', 1, M_T, O_T), S('I2', 2, M_T, O_T), S('I4', 1, M_P0, O_P | og('REACT')), S('T1t', 2, M_T, O_T), S('P5t', 1, M_P0, O_P | og('REACT', 'QUERY')), S('N8', 1, M_T, O_T, flags=['--ids=0,3,4,7']), S('N5', 1, M_T, O_T), S('N7p', 1, M_P0, O_P | og('REACT', 'QUERY'), flags=['--ids=0,3,6']), S('T1', 2, M_T, O_T), S('T2', 2, M_TP, O_T | og('MANUAL')), S('T3', 3, M_T, O_T), S('P3', 2, M_P, O_P | og('REACT', 'QUERY')), S('P5', 1, M_P, O_P | og('REACT', 'QUERY')), S('T4', 1, M_T, O_T)],
